@@ -512,6 +512,56 @@ def pkg_dir() -> str:
     return _PKG_DIR
 
 
+_CLEANUP_LINES: dict = {}
+
+
+def cleanup_lines(filename: str) -> frozenset:
+    """Line numbers of a source file that belong to the library's own clean-up code: bodies of
+    ``finally`` / ``except`` clauses and of ``__exit__`` / ``__aexit__`` / ``__del__``.  An injected
+    interruption or re-entrant call is never placed *inside* clean-up (it is deferred to the next
+    line event outside it): no scoped restore (``try/finally``, context manager) can survive an
+    asynchronous exception in its own last statement, the statements of the properties speak of
+    calls, not of that, and the pinned tree has no such code -- so placing faults there could only
+    raise alarms on restructurings under which the properties hold."""
+    got = _CLEANUP_LINES.get(filename)
+    if got is None:
+        import ast
+
+        lines = set()
+        try:
+            tree = ast.parse(open(filename, encoding="utf-8").read())
+        except Exception:
+            tree = None
+        if tree is not None:
+            def span(nodes):
+                for n in nodes:
+                    for m in ast.walk(n):
+                        if hasattr(m, "lineno"):
+                            lines.update(range(m.lineno, getattr(m, "end_lineno", m.lineno) + 1))
+
+            for node in ast.walk(tree):
+                if isinstance(node, ast.Try):
+                    span(node.finalbody)
+                    for h in node.handlers:
+                        span(h.body)
+                elif isinstance(node, (ast.FunctionDef, ast.AsyncFunctionDef)) and node.name in ("__exit__", "__aexit__", "__del__"):
+                    span(node.body)
+                # inert lines: nothing on them can raise, so an exception "at" them can only be an
+                # asynchronous one landing between two statements (e.g. between acquiring a scoped
+                # state and entering the ``try`` that releases it) -- same argument as above.  An
+                # injected exception models the first operation of the line about to run failing.
+                if isinstance(node, ast.Try):
+                    lines.add(node.lineno)
+                elif isinstance(node, (ast.Pass, ast.Break, ast.Continue, ast.Global, ast.Nonlocal)):
+                    lines.add(node.lineno)
+        got = _CLEANUP_LINES[filename] = frozenset(lines)
+    return got
+
+
+def in_cleanup(frame) -> bool:
+    return frame.f_lineno in cleanup_lines(frame.f_code.co_filename)
+
+
 class LineSeam:
     """Counts line events inside sym_metanet while ``call`` runs; at event ``at`` (1-based)
     performs ``action(frame)``, which may raise into the library (interruption) or run
@@ -526,7 +576,7 @@ class LineSeam:
     def _local(self, frame, event, arg):
         if event == "line":
             self.count += 1
-            if self.count == self.at and self.action is not None:
+            if self.action is not None and self.fired is None and self.count >= self.at > 0 and not in_cleanup(frame):
                 self.fired = (os.path.basename(frame.f_code.co_filename), frame.f_code.co_name)
                 sys.settrace(None)
                 try:
